@@ -56,7 +56,14 @@ impl<'r> Data<'r> {
             if src.is_empty() {
                 None
             } else {
-                Some(decode_field(&mut src))
+                let result = decode_field(&mut src);
+
+                // A failed decode does not necessarily advance the source. Stop after the error.
+                if result.is_err() {
+                    src = &[];
+                }
+
+                Some(result)
             }
         })
     }
